@@ -287,3 +287,98 @@ def o3_die(prog):
                          "msg": "value_die::cmp is not a consistent order on the abstract domain (%s): %s" % (kind, text),
                          "detail": info})
     return inst, findings
+
+
+def o4(prog, tier="quick"):
+    """all relational operators of `constant` and compare<T> agree with operator< on the abstract domain, arithmetic domains
+    compare by value, unrelated named domains are never equal"""
+    inst, findings = [], []
+    lt = prog.func_opt("constant::operator<")
+    ops = {}
+    for name in ("operator>", "operator<=", "operator>=", "operator==", "operator!="):
+        f = prog.func_opt("constant::" + name)
+        if f is None:
+            raise Broken("anchor constant::%s vanished" % name)
+        ops[name] = f
+    cmpf = [f for f in prog.funcs.values() if f["q"].startswith("compare<constant>")]
+    dec, doms, consts = universe("quick")
+    for i, d in enumerate([x for x in doms if x is not None]):
+        d.addr = 1000 + i
+    hooks = {
+        "constant::dom": lambda ev, o, a: o.dom,
+        "constant::value": lambda ev, o, a: o.value,
+        "zw_cdom::safe_arith": lambda ev, o, a: o.arith,
+        "zw_cdom::most_enclosing": lambda ev, o, a: o.enclosing(a[0]),
+        "ctor:std::less<*": lambda ev, o, a: (lambda ev2, args: (0 if args[0] is None else args[0].addr) < (0 if args[1] is None else args[1].addr)),
+        "constant::operator<": lambda ev, o, a: ev.call(lt, o, [a[0]]),
+        "constant::operator!=": lambda ev, o, a: ev.call(ops["operator!="], o, [a[0]]),
+        "constant::operator==": lambda ev, o, a: ev.call(ops["operator=="], o, [a[0]]),
+    }
+    ev = Evaluator(hooks, {"dec_constant_dom": dec}, ptr_lt=True)
+    want = {"operator>": lambda a, b, L: L(b, a), "operator<=": lambda a, b, L: not L(b, a), "operator>=": lambda a, b, L: not L(a, b),
+            "operator!=": lambda a, b, L: L(a, b) or L(b, a), "operator==": lambda a, b, L: not (L(a, b) or L(b, a))}
+    memo = {}
+
+    def L(a, b):
+        k = (id(a), id(b))
+        if k not in memo:
+            memo[k] = bool(ev.call(lt, a, [b]))
+        return memo[k]
+    n = 0
+    bad = {}
+    for a in consts:
+        for b in consts:
+            for name, f in ops.items():
+                n += 1
+                got = bool(ev.call(f, a, [b]))
+                if got != want[name](a, b, L) and name not in bad:
+                    bad[name] = "%r %s %r evaluates to %s but operator< implies %s" % (a, name[8:], b, got, want[name](a, b, L))
+    for name in ops:
+        key = "O4:constant::" + name
+        inst.append((key, {"agrees_with_operator<": name not in bad}))
+        if name in bad:
+            findings.append({"key": key, "where": "libzwerg/constant.cc:%s" % ops[name]["l"].split(":")[-1],
+                             "msg": "constant::%s disagrees with operator<: %s (aliases such as !lt / ?ge would no longer agree)" % (name, bad[name]), "detail": None})
+    # semantic anchors of C09 on the abstract domain
+    probs = []
+    arith = [c for c in consts if c.dom is not None and c.dom.arith]
+    for a in arith:
+        for b in arith:
+            if L(a, b) != (a.value < b.value):
+                probs.append("arithmetic constants %r and %r do not compare by value" % (a, b))
+    named = [c for c in consts if c.dom is not None and not c.dom.arith]
+    for a in named:
+        for b in named:
+            if a.dom is not b.dom and a.dom.enclosing(a.value) is not b.dom.enclosing(b.value) and not (L(a, b) or L(b, a)):
+                probs.append("constants of unrelated domains %r and %r compare equal" % (a, b))
+    for a in consts:
+        if L(a, a):
+            probs.append("%r < itself" % a)
+    inst.append(("O4:semantics", {"pairs": len(consts) ** 2, "operator_evaluations": n}))
+    for p in probs[:3]:
+        findings.append({"key": "O4:semantics", "where": "libzwerg/constant.cc:%s" % lt["l"].split(":")[-1], "msg": p, "detail": None})
+    # compare<T>: less iff a<b, greater iff b<a
+    tf = [f for f in prog.funcs.values() if f["q"].startswith("compare<")]
+    if not tf:
+        raise Broken("template compare<T> has no instantiation")
+    f = tf[0]
+    g = None
+    from cfg import CFG
+    g = CFG(f)
+    shape = []
+    for nn in g.nodes:
+        if nn.kind == "cond":
+            c = nn.ast
+            args = None
+            if isinstance(c, dict) and c.get("k") == "bin" and c.get("op") == "<":
+                args = (unwrap(c["lhs"]).get("n"), unwrap(c["rhs"]).get("n"))
+            elif isinstance(c, dict) and c.get("k") == "call" and c.get("op") == "<":
+                args = (unwrap(c["a"][0]).get("n"), unwrap(c["a"][1]).get("n"))
+            t = [g.nodes[t_] for t_, lab in nn.succs if lab is True]
+            r = unwrap(t[0].ast).get("n") if t and t[0].kind == "ret" and isinstance(unwrap(t[0].ast), dict) else None
+            shape.append((args, r))
+    ok = (("a", "b"), "less") in shape and (("b", "a"), "greater") in shape
+    inst.append(("O4:compare<T>", {"shape": shape}))
+    if not ok:
+        findings.append({"key": "O4:compare<T>", "where": f["l"], "msg": "compare<T> no longer maps a<b to less and b<a to greater: %s" % shape, "detail": None})
+    return inst, findings
